@@ -20,6 +20,9 @@ HASHES = ["sha256", "sha512", "sha384", "sha3_256", "blake2b", "sha1", "sha224",
 
 
 def _msg(n, salt=0):
+    if n > 5000:  # long messages: a repeated 251-byte pattern (fast to build, not block-aligned)
+        pat = bytes((i * 7 + salt) & 0xFF for i in range(251))
+        return (pat * (n // 251 + 1))[:n]
     return bytes((i * 7 + salt) & 0xFF for i in range(n))
 
 
@@ -115,6 +118,46 @@ def task_h2f(a, env):
     return r
 
 
+def reuse_case(a):
+    """one history: the same bytearray message / DST objects passed three times; the objects must be
+    unchanged and every result the RFC value"""
+    Hm = importlib.import_module("py_ecc.bls.hash")
+    msg, dst = bytearray(_msg(a["lm"], 1)), bytearray(_msg(a["ld"], 2))
+    m0, d0 = bytes(msg), bytes(dst)
+    out = []
+    for step in range(3):
+        exp = ("ok", h2c.expand_message_xmd(m0, d0, a["n"], a["h"]))
+        got = _call(Hm.expand_message_xmd, msg, dst, a["n"], getattr(hashlib, a["h"]))
+        got = ("ok", bytes(got[1])) if got[0] == "ok" and isinstance(got[1], (bytes, bytearray)) else got
+        if bytes(msg) != m0 or bytes(dst) != d0:
+            got = ("arguments-mutated", [len(msg), len(dst)])
+        out.append((step, exp, got))
+    return out
+
+
+def task_xmd_reuse(a, env):
+    r = R("expand_message_xmd:bytearray-arguments-reused")
+    for hn in a["hs"]:
+        for (lm, ld, n) in ((3, 5, 40), (0, 0, 1), (70, 255, 100), (1, 1, 0)):
+            c = {"h": hn, "lm": lm, "ld": ld, "n": n}
+            for step, exp, got in reuse_case(c):
+                r.ev += 1
+                r.dk.add((hn, lm, ld, n, step))
+                if exp != got:
+                    r.viol("C15:xmd:bytearray-reuse:%s" % ("mutated" if got[0] == "arguments-mutated" else "wrong-bytes"),
+                           ME + ":replay_reuse", c, exp, got, note="call %d of 3" % step)
+                    break
+    r.sample({"sequence": "expand_message_xmd(bytearray msg, bytearray DST) x 3 on the same objects", "hashes": a["hs"]})
+    return r
+
+
+def replay_reuse(a):
+    for step, exp, got in reuse_case(a):
+        if exp != got:
+            return {"call": step, "expected": exp, "observed": got}
+    return None
+
+
 def pair_case(a):
     """one history: the same inputs under hash h1, then h2, then h1 again"""
     out = []
@@ -181,6 +224,11 @@ def run(ctx):
             tasks.append(("xmd", {"h": hn, "lms": lms[i::split], "lds": lds, "ns": ns, "sample": i == 0}))
     for h1 in hashes:
         tasks.append(("xmd_pairs", {"h1s": [h1], "h2s": hashes}))
+    tasks.append(("xmd_reuse", {"hs": ["sha256", "sha512", "sha3_256"]}))
+    # very long messages at power-of-two sizes (chunked / streamed hashing boundaries)
+    for hn in ("sha256", "sha512"):
+        for lm in ([1 << 20, (1 << 22) - 1, 1 << 22, (1 << 22) + 1, 1 << 23] + ([] if q else [1 << 24, 3 << 22])):
+            tasks.append(("xmd", {"h": hn, "lms": [lm], "lds": [5], "ns": [32]}))
     # counts at each hash's own 255-block limit (L = 64 bytes per coordinate)
     for m in (1, 2):
         for hn in ("sha256", "sha512", "sha384", "sha1", "sha3_512"):
